@@ -158,11 +158,13 @@ with inest (it : item) : bool :=
   | _ => false
   end.
 
-(* Tables.  Where a table has a span, the repr of every key holding a value, that value's span, and
-   every table made of a dotted key (with its key) directly below it lie inside the table's span;
-   tables opened by their own header are not nested in their parent's span (`[a]` ... `[a.b]`), nor
-   are implicit super-tables (they have no span).  The elements of an array of tables (which are never
-   tables made of dotted keys) lie inside the array's span, which starts where its first element starts. *)
+(* Tables.  Where a table has a span, the repr of every key holding a value and that value's span lie
+   inside the table's span ("every key/value of a table section lies inside the table span").  Sub-tables
+   are not required to lie inside their tree parent: a table opened by its own header lies elsewhere
+   (`[a]` ... `[a.b]`), and so may a table made of a dotted key (see `dotted_inside` below: refuted).
+   Implicit super-tables have no span.  A table made of a dotted key always has a span, covering its own
+   keys and values (same clause).  The elements of an array of tables (never tables made of dotted keys)
+   lie inside the array's span, which starts where its first element starts. *)
 Definition aot_nest (spans : list ospan) (asp : ospan) : bool :=
   match asp with
   | Some (a, b) =>
@@ -170,30 +172,42 @@ Definition aot_nest (spans : list ospan) (asp : ospan) : bool :=
     | Some (x, _) :: _ => (x =? a)%N
     | _ => false
     end && forallb (osp_in a b) spans
-  | None => true
+  | None => match spans with [] => true | _ => false end
   end.
+
+Definition tn_value (sp : ospan) (k : key) (v : value) : bool :=
+  match sp with
+  | Some (a, b) => kspan_in a b k && osp_in a b (value_span v)
+  | None => true
+  end && vnest v.
 
 Fixpoint tnest (t : tbl) : bool :=
   match t with
-  | Tbl items _ im dt _ sp =>
-    (negb (im && negb dt) || ospan_none sp)
+  | Tbl items _ _ dt _ sp =>
+    (negb dt || negb (ospan_none sp))
     && forallb (fun kv =>
                match snd kv with
                | INone => true
-               | IValue v =>
-                 match sp with
-                 | Some (a, b) => kspan_in a b (fst kv) && osp_in a b (value_span v)
-                 | None => true
-                 end && vnest v
-               | ITable sub =>
-                 (if t_dotted sub
-                  then match sp with
-                       | Some (a, b) => kspan_in a b (fst kv) && osp_in a b (t_span sub)
-                       | None => true
-                       end
-                  else true) && tnest sub
+               | IValue v => tn_value sp (fst kv) v
+               | ITable sub => tnest sub
                | IAot ts asp =>
                  aot_nest (map t_span ts) asp && forallb (fun e => negb (t_dotted e)) ts && forallb tnest ts
+               end) items
+  end.
+
+(* the stronger reading "a table made of a dotted key lies inside the span of its parent in the tree" is
+   false (Props/C14spans.v C14_dotted_table_inside_parent_refuted) *)
+Fixpoint dotted_inside (t : tbl) : bool :=
+  match t with
+  | Tbl items _ _ _ _ sp =>
+    forallb (fun kv =>
+               match snd kv with
+               | ITable sub =>
+                 (if t_dotted sub
+                  then match sp with Some (a, b) => osp_in a b (t_span sub) | None => true end
+                  else true) && dotted_inside sub
+               | IAot ts _ => forallb dotted_inside ts
+               | _ => true
                end) items
   end.
 
